@@ -112,8 +112,8 @@ def table(hspec):
         mro = [i - 1 - idx[id(k)] for k in tw[i].__mro__[1:] if id(k) in idx]
         bases = [i - 1 - idx[id(k)] for k in tw[i].__bases__ if id(k) in idx]
         row = {"attrs": False, "api": "attrS", "frozenArg": False, "slots": False, "clsOnSet": "unset",
-               "autoDetect": False, "userSet": False, "userDel": False, "builtin": role == "root", "fields": [],
-               "bases": bases, "mro": mro}
+               "autoDetect": False, "userSet": False, "userDel": False, "builtin": role == "root", "stateArg": None,
+               "fields": [], "bases": bases, "mro": mro}
         if role == "root":
             pass
         elif role == "mixin":
@@ -128,6 +128,7 @@ def table(hspec):
                 row["api"] = "define" if cs.get("api") == "define" else "attrS"
                 row["frozenArg"] = k == "attrs_frozen"
                 row["autoDetect"] = row["api"] == "define"
+                row["stateArg"] = False
         elif role == "tail" or cs["kind"] == "plain":
             row["slots"] = bool(cs.get("plain_slots"))
             row["userSet"] = bool(cs.get("user_set"))
@@ -146,6 +147,7 @@ def table(hspec):
             row["autoDetect"] = ng if ad is None else bool(ad)
             row["userSet"] = bool(cs.get("user_set"))
             row["userDel"] = bool(cs.get("user_del"))
+            row["stateArg"] = cs.get("getstate_setstate")
             row["fields"] = [_field_facts(f) for f in ib.expected_fields({"classes": list(main_seen)})]
         out.append(row)
     return out
@@ -285,6 +287,48 @@ def slot_names(cls):
             if n not in ("__weakref__", "__dict__"):
                 out.add(n)
     return sorted(out)
+
+
+def any_slots(leaf):
+    return any(bool(k.__dict__.get("__slots__")) for k in leaf.__mro__)
+
+
+def predicted_gs(tbl, owner_rel, anyslots):
+    """the state protocol the leaf resolves, predicted from the *specification* (the Lean `predictedGs`):
+    attrs generates a __getstate__/__setstate__ pair for a class when asked to, and by default when the class is
+    slotted or would inherit a generated pair; the leaf resolves the nearest such class along its MRO"""
+    own = []
+    for i, row in enumerate(tbl):
+        mro_abs = [i - 1 - r for r in row["mro"]]
+        if not row["attrs"]:
+            own.append(False)
+        elif row["stateArg"] is not None:
+            own.append(bool(row["stateArg"]))
+        else:
+            own.append(bool(row["slots"]) or any(own[j] for j in mro_abs))
+    n = len(tbl)
+    order = [n - 1] + [n - 2 - r for r in tbl[-1]["mro"]]
+    for j in order:
+        if own[j]:
+            return "attrs" if (n - 1 - j) == owner_rel else "other"
+    return "optOut" if anyslots else "dflt"
+
+
+def resolved_kinds(leaf):
+    """classification of type(inst).__setattr__ / __delattr__ (the Lean SetK / DelK)"""
+    from attr._make import _frozen_delattrs, _frozen_setattrs
+
+    s, d = leaf.__setattr__, leaf.__delattr__
+    if s is _frozen_setattrs:
+        sk = "frozen"
+    elif s is object.__setattr__ or s is BaseException.__setattr__:
+        sk = "obj"
+    elif "generated by attrs" in (getattr(s, "__doc__", "") or ""):
+        sk = "hooks"
+    else:
+        sk = "user"
+    dk = "frozen" if d is _frozen_delattrs else "obj" if (d is object.__delattr__ or d is BaseException.__delattr__) else "user"
+    return sk, dk
 
 
 def gs_kind(leaf, owner, slots):
